@@ -1,0 +1,28 @@
+//go:build verif
+
+package layers
+
+// C05 (reset), fields excluded by name. Each exclusion is a field that DecodeFromBytes never makes visible with a
+// value of an earlier packet; the reason is given per block.
+
+// UrbInterval, UrbStartFrame and IsoNumDesc are assigned only inside `if false { ... }` (the 64-byte header variant
+// is not implemented): no execution of DecodeFromBytes writes them, so a reused and a fresh object agree on them.
+//@ func (m *USB) DecodeFromBytes(data []byte, df gopacket.DecodeFeedback) error
+//@   props C05
+//@   keeps UrbInterval UrbStartFrame IsoNumDesc
+
+// hbh is the unexported scratch object behind the exported pointer HopByHop. HopByHop is set to nil before anything
+// else and to &ipv6.hbh only after hbh.DecodeFromBytes has succeeded, which assigns every field of hbh
+// (ipv6ExtensionBase as a whole, Options = Options[:0] and appends: obligations of IPv6HopByHop.DecodeFromBytes).
+// On the paths without a hop-by-hop header the old contents of hbh are unreachable through the public API
+// (NextLayerType, SerializeTo, LayerPayload only go through HopByHop).
+//@ func (ipv6 *IPv6) DecodeFromBytes(data []byte, df gopacket.DecodeFeedback) error
+//@   props C05
+//@   keeps hbh
+
+// SFlowDatagram.DecodeFromBytes never assigns its own BaseLayer (the write set of its callees contains
+// BaseLayer.Contents / Payload only because the sampled packet headers are decoded into other layer objects by
+// gopacket.NewPacket): a reused and a fresh object agree on it.
+//@ func (s *SFlowDatagram) DecodeFromBytes(data []byte, df gopacket.DecodeFeedback) error
+//@   props C05
+//@   keeps BaseLayer
